@@ -720,6 +720,24 @@ def run(ctx):
     #      lock is never released in this process
     argument_panics_before_the_lock(ctx, "R-C17.15")
 
+    # ---- R-C17.16 the database drop takes its locks poison-tolerantly: a panic under the keyspaces / journal-manager lock
+    #      (the options closure of Database::keyspace runs under it) must not make the drop panic before it has broken
+    #      the handle cycles — the keyspace handles kept alive by them hold the folder lock
+    dd16 = ctx.fn("<db::DatabaseInner as std::ops::Drop>::drop", "R-C17.16")
+    if dd16:
+        og16 = ctx.og(dd16)
+        LOCKS = ("std::sync::RwLock::<T>::write", "std::sync::RwLock::<T>::read", "std::sync::Mutex::<T>::lock")
+        acq = [b for b, t in dd16.calls() if A.cname(t) in LOCKS]
+        bad = []
+        for b, t in dd16.calls():
+            n = A.cname(t)
+            if n.endswith(("Result::<T, E>::expect", "Result::<T, E>::unwrap")) and any(x.k == "call" and x.a[0] in LOCKS for x in A.walk(og16.of_operand(t["args"][0]))):
+                bad.append(b)
+        ctx.ob("R-C17.16", dd16, "drop-does-not-panic-on-a-poisoned-lock", not bad and len(acq) >= 2,
+               "%d lock acquisitions in drop, none unwrapped with expect/unwrap" % len(acq) if (not bad and len(acq) >= 2) else
+               "DatabaseInner::drop unwraps a lock result with expect/unwrap (%d site(s), %d acquisitions): after a panic under that lock the drop panics before it clears the keyspaces map, the handle cycles stay, and the folder can never be opened again in this process" % (len(bad), len(acq)),
+               dd16.loc(bad[0]) if bad else "")
+
     # ---- cross-cutting disciplines (rules/discipline.py)
     from .. import discipline as D
     # open/lock/marker errors surface
